@@ -46,6 +46,7 @@ type frame struct {
 	transparent bool // inlined contract-less helper: the unit's call anchors apply to the calls it makes
 	labels  map[string]ast.Stmt
 	localAllocs map[types.Object]bool
+	escPos      map[types.Object]token.Pos // see escapePositions
 }
 
 type Unit struct {
@@ -80,6 +81,7 @@ type Unit struct {
 	entryNames map[string]Value
 	quantVars map[string]Value
 	curPos  token.Pos
+	curStmt token.Pos // position of the statement of the function under contract being executed (top frame only)
 	nextHavoc  int
 	axiomTerms []axiomTerm
 	litFrame   *frame
